@@ -29,7 +29,7 @@ def main():
     use_repo()
     import numpy as np
     from webob import Request
-    from pydap.client import open_url
+    from pydap.client import open_dods_url, open_url
     from pydap.handlers.csv import CSVHandler
     from pydap.handlers.dap import unpack_dap2_data
     from pydap.handlers.lib import BaseHandler, IterData
@@ -273,6 +273,98 @@ def main():
             r.known_finding("a lazy (IterData / CSV) sequence whose constraint selects no record raises instead of returning an "
                             "empty sequence (GET /d.dods?q&q.a>5 on a 2-record IterData sequence); %d generated cases of this class "
                             "in this run" % len(known_hits))
+
+    # ---- the projection's hyperslabs: mentions of arrays and of the sequence with repeated / different / invalid hyperslabs,
+    # compared with the Gallina model of the loop in apply_projection (model/Projection.v) and with a direct reference
+    proj_cases, proj_stats = [], {"requests": 0, "refused": 0, "with_repeated_mention": 0}
+
+    def slab_txt(t):
+        a, st_, b = t
+        if st_ == 1 and rng.random() < 0.3:
+            return "[%d:%d]" % (a, b)
+        return "[%d:%d:%d]" % (a, st_, b)
+    for pi in range(120 if T == "quick" else 1500):
+        nx, ny, nq = rng.randint(1, 8), rng.randint(1, 8), rng.randint(0, 8)
+        dsp = DatasetType("d")
+        dsp["x"] = BaseType("x", np.arange(nx, dtype="i4"))
+        dsp["y"] = BaseType("y", np.arange(ny, dtype="i4"))
+        sqp = SequenceType("q")
+        sqp["a"] = BaseType("a")
+        sqp["b"] = BaseType("b")
+        sqp.data = np.array([(j, 10 * j) for j in range(nq)], dtype=[("a", "i4"), ("b", "i4")])
+        dsp["q"] = sqp
+        appp = BaseHandler(dsp)
+        ext = {"x": nx, "y": ny, "q": nq}
+        mentions, texts = [], []
+        for _ in range(rng.randint(1, 4)):
+            v = rng.choice(["x", "x", "y", "q", "q"])
+            prev = [m for m in mentions if m[0] == v and m[1] is not None]
+            if rng.random() < 0.3:
+                sl = None
+            elif prev and (rng.random() < 0.5 or (v != "q" and any(m[1][1] != 1 for m in prev))):
+                # the same hyperslab once more.  (A DIFFERENT hyperslab after a strided one is not generated for arrays: the
+                # composition is numpy.lib.Arrayterator's, which adds the second start to the first without scaling it by the
+                # stride - a defect of that library, not a behaviour of pydap's that the property speaks of.)
+                sl = rng.choice(prev)[1]
+            else:
+                a = rng.randint(0, ext[v] + 1)
+                sl = (a, rng.randint(1, 3), rng.randint(max(a - 1, 0), ext[v] + 2))
+            mentions.append((v, sl))
+            txt = v + (slab_txt(sl) if sl else "")
+            if v == "q" and rng.random() < 0.6:
+                txt += "." + rng.choice("ab")
+            texts.append(txt)
+        ce = ",".join(texts)
+        proj_stats["requests"] += 1
+        proj_stats["with_repeated_mention"] += len(set(m for m in mentions if m[1])) < len([m for m in mentions if m[1]])
+        r.count(("projection", nx, ny, nq, ce))
+        obs = None
+        try:
+            res = Request.blank("/d.dods?" + ce).get_response(appp)
+            body = res.body
+            if res.status_int == 200:
+                dsr = open_dods_url("http://localhost:8001/d.dods?" + ce, application=appp)
+                obs = {}
+                for v in dsr.keys():
+                    if v == "q":
+                        col = list(dsr["q"].keys())[0]
+                        obs["q"] = [int(rec[0]) // (10 if col == "b" else 1) for rec in dsr["q"][col,].iterdata()]
+                    else:
+                        obs[v] = [int(e) for e in np.asarray(dsr[v].data).reshape(-1)]
+        except Exception as e:  # noqa
+            direct.append({"law": "a projection is answered completely or refused with an error document", "backend": "numpy", "entry": "raw",
+                           "constraint": ce, "error": repr(e)[:200]})
+            continue
+        # direct reference: distinct (variable, hyperslab) pairs applied in order of first mention, to what is left
+        want, seen_p = {v: list(range(n_)) for v, n_ in ext.items()}, set()
+        for v, sl in mentions:
+            if sl is None or (v, sl) in seen_p or want is None:
+                continue
+            seen_p.add((v, sl))
+            a, st_, b = sl
+            if not (0 <= a < b + 1 and st_ >= 1 and (v == "q" or a < len(want[v]))):
+                want = None
+                break
+            want[v] = want[v][a:b + 1:st_]
+        proj_stats["refused"] += obs is None
+        if (obs is None) != (want is None) or (obs is not None and any(obs[v] != want[v] for v in obs)):
+            direct.append({"law": "a hyperslab written more than once for a variable is one hyperslab; distinct ones apply in order to what "
+                                  "is left; an invalid one is refused", "backend": "numpy", "entry": "raw", "constraint": ce,
+                           "extents": ext, "got": obs, "want": want})
+        proj_cases.append("(%s, %s, %s)" % (
+            "[" + "; ".join("(%s, %s, %d%%nat)" % (cs(v), "false" if v == "q" else "true", n_) for v, n_ in ext.items()) + "]",
+            clist(mentions, lambda m: "(%s, %s)" % (cs(m[0]), "None" if m[1] is None else "(Some (mkSlab %d %d %d))" % (m[1][0], m[1][2] + 1, m[1][1]))),
+            "None" if obs is None else "(Some %s)" % clist(sorted(obs.items()), lambda kv: "(%s, %s)" % (cs(kv[0]), clist(kv[1], cz)))))
+    r.extra["projection_hyperslabs"] = proj_stats
+    try:
+        badp = coq_eval_mismatches(PID + "_proj", "ProjectionCases", "chk_projection", proj_cases,
+                                   "list (cname * bool * nat) * list mention * option (list (cname * list Z))", shard=200)
+    except RuntimeError as e:
+        r.violation({"kind": "correspondence-broken", "error": str(e)[-1500:], "theorem": "projection model evaluation"}, found=False)
+        badp = []
+    if badp and not direct:
+        r.violation({"kind": "correspondence-broken", "theorem": "Gallina model of the hyperslab loop of apply_projection (model/Projection.v)",
+                     "case": proj_cases[badp[0]], "n_mismatches": len(badp)}, found=False)
 
     try:
         bad = coq_eval_mismatches(PID + "_model", IMPORTS, "chk_pipeline", coq_cases,
